@@ -199,8 +199,8 @@ func C03_Run(job string) {
 			c03ok(len(z.Time().Parse(sec, &d)))
 			v.Assert(v.And(d.Unix() == sec, d.Nanosecond() == 0), "C03:time-unix-seconds")
 		case "format":
-			layouts := []string{"2006-01-02", "02/01/2006 15:04", time.RFC1123}
-			inputs := []string{"2024-03-05", "05/03/2024 10:20", "Tue, 05 Mar 2024 10:20:30 UTC"}
+			layouts := []string{"2006-01-02", "02/01/2006 15:04", time.RFC1123, "20060102", "2006", "150405", "20060102150405"}
+			inputs := []string{"2024-03-05", "05/03/2024 10:20", "Tue, 05 Mar 2024 10:20:30 UTC", "20240305", "1999", "102030", "20240305102030"}
 			k := v.Choice("layout", len(layouts))
 			c03ok(len(z.Time(z.Time.Format(layouts[k])).Parse(inputs[k], &d)))
 			want, _ := time.Parse(layouts[k], inputs[k])
@@ -208,9 +208,12 @@ func C03_Run(job string) {
 		case "formatfunc":
 			want := time.Unix(123456, 0).UTC()
 			called := 0
-			s := z.Time(z.Time.FormatFunc(func(data string) (time.Time, error) { called++; return want, nil }))
-			c03ok(len(s.Parse("anything", &d)))
-			v.Assert(called == 1, "C03:time-formatfunc-not-used")
+			got := ""
+			s := z.Time(z.Time.FormatFunc(func(data string) (time.Time, error) { called++; got = data; return want, nil }))
+			in := visible("in", 3) // every non-blank string goes to the function, digits included (epoch millis, yyyymmdd, ...)
+			v.Assume(len(in) > 0)
+			c03ok(len(s.Parse(in, &d)))
+			v.Assert(called == 1 && got == in, "C03:time-formatfunc-not-used")
 			v.Assert(d.Equal(want), "C03:time-formatfunc-result")
 		}
 	case "option":
